@@ -27,7 +27,7 @@ func init() {
 
 func tumbleScenario(r *Run) {
 	t := r.Tape
-	hdr := t.Block(8)
+	hdr := t.Block(12)
 	maxSteps := 8
 	if r.Thorough() {
 		maxSteps = []int{6, 12, 24}[hdr.Draw(3)]
@@ -39,43 +39,67 @@ func tumbleScenario(r *Run) {
 	if withOffset {
 		offsetMs = []int64{0, 500, 1000, 250, 1750, 7000}[hdr.Draw(6)]
 	}
-	explicitField := hdr.Chance(1, 2)
+	// the source has two time columns: t is its declared (watermarked) time field, u = t + 7.3s another one.
+	// time_field: absent (implicit: t), DESCRIPTOR(t) or DESCRIPTOR(u)
+	timeField := []string{"", "t", "u"}[hdr.Draw(3)]
+	// source of tumble: the table itself, or a projection of it (a CTE with permuted columns)
+	viaProjection := hdr.Chance(1, 2)
+	perm := [][]string{{"id", "t", "u", "v"}, {"t", "id", "v", "u"}, {"v", "u", "id", "t"}, {"u", "v", "t", "id"}}[hdr.Draw(4)]
+	// outer select list: everything, or some columns that do not name the time columns
+	subset := hdr.Chance(1, 2)
 	attrs := map[string]string{"tvf": "tumble"}
+	const uShift = 7300 * time.Millisecond
 	row := func(t *Tape, i, sec int) []octosql.Value {
 		ms := int64(sec)*1000 + int64(t.Draw(4))*250
 		if sec == 0 {
 			ms = int64(1+t.Draw(5)) * 750
 		}
-		return []octosql.Value{intv(i), octosql.NewTime(msTime(ms)), intv(t.Draw(3))}
+		return []octosql.Value{intv(i), octosql.NewTime(msTime(ms)), octosql.NewTime(msTime(ms).Add(uShift)), intv(t.Draw(3))}
 	}
 	script := GenChangelog(t.Block(8*maxSteps+10), ChangelogCfg{MaxSteps: maxSteps, Watermarked: true, Retractions: true, Dups: true,
 		Row: row, FinalWM: true, RetractSameTime: true})
-	sql := fmt.Sprintf("SELECT * FROM tumble(source=>TABLE(sim.s), window_length=>INTERVAL %d MILLISECONDS", lengthMs)
-	if explicitField {
-		sql += ", time_field=>DESCRIPTOR(t)"
+	args := fmt.Sprintf("window_length=>INTERVAL %d MILLISECONDS", lengthMs)
+	if timeField != "" {
+		args += ", time_field=>DESCRIPTOR(" + timeField + ")"
 	}
 	if withOffset {
-		sql += fmt.Sprintf(", offset=>INTERVAL %d MILLISECONDS", offsetMs)
+		args += fmt.Sprintf(", offset=>INTERVAL %d MILLISECONDS", offsetMs)
 	}
-	sql += ") x"
-	r.Log("sql: %s", sql)
+	srcCols := []string{"id", "t", "u", "v"}
+	sql := ""
+	if viaProjection {
+		srcCols = perm
+		sql = "WITH p AS (SELECT s." + strings.Join(perm, ", s.") + " FROM sim.s s) "
+		sql += "SELECT %s FROM tumble(source=>TABLE(p), " + args + ") x"
+	} else {
+		sql = "SELECT %s FROM tumble(source=>TABLE(sim.s), " + args + ") x"
+	}
+	outCols := append(append([]string{}, srcCols...), "window_start", "window_end")
+	selectList := "*"
+	if subset {
+		outCols = []string{"window_end", "id", "window_start", "v"}
+		selectList = "x." + strings.Join(outCols, ", x.")
+	}
+	sql = fmt.Sprintf(sql, selectList)
+	optimize := hdr.Chance(2, 3)
+	r.Log("sql: %s (optimize=%v)", sql, optimize)
 	r.Log("in: %s", ScriptString(script))
-	r.Shape("tumble", lengthMs, offsetMs, explicitField, scriptShape(script))
+	r.Shape("tumble", lengthMs, offsetMs, timeField, viaProjection, fmt.Sprint(perm), subset, optimize, scriptShape(script))
 	r.Sched(ScriptString(script))
 	r.NonTrivial(len(script) >= 2)
 	r.AddSimTime(int64(len(script)) * int64(time.Second))
 
 	tables := map[string]*SimTable{"s": {
-		Fields:    []physical.SchemaField{{Name: "id", Type: octosql.Int}, {Name: "t", Type: octosql.Time}, {Name: "v", Type: octosql.Int}},
+		Fields:    []physical.SchemaField{{Name: "id", Type: octosql.Int}, {Name: "t", Type: octosql.Time}, {Name: "u", Type: octosql.Time}, {Name: "v", Type: octosql.Int}},
 		TimeField: 1, NoRetractions: false,
 		Source: func() execution.Node { return &ScriptSource{Name: "S", Msgs: script} },
 	}}
-	planned, err := PlanSQL(bubbleCtx(), sql, tables, hdr.Chance(1, 2))
+	planned, err := PlanSQL(bubbleCtx(), sql, tables, optimize)
 	if err != nil {
 		r.Infra("query did not plan: %v", err)
 		return
 	}
-	// expected: same sequence; records gain two columns
+	colOf := map[string]int{"id": 0, "t": 1, "u": 2, "v": 3}
 	pos := 0
 	nOut := 0
 	next := func() (Msg, bool) {
@@ -103,12 +127,28 @@ func tumbleScenario(r *Run) {
 					r.Violate("C21", "tumble_sequence", attrs, "unexpected record %s (input message %d is %v)", RowString(rec.Values), pos, m)
 					return nil
 				}
-				if len(rec.Values) != len(m.Values)+2 || RowKey(rec.Values[:len(m.Values)]) != RowKey(m.Values) || rec.Retraction != m.Retr || !rec.EventTime.Equal(m.ET) {
-					r.Violate("C21", "tumble_fields", attrs, "record %s does not carry the input record %s unchanged plus window_start, window_end", Msg{Kind: MsgRec, Values: rec.Values, Retr: rec.Retraction, ET: rec.EventTime}, m)
+				if len(rec.Values) != len(outCols) || rec.Retraction != m.Retr || !rec.EventTime.Equal(m.ET) {
+					r.Violate("C21", "tumble_fields", attrs, "record %s does not carry the input record %s (sign, event time, %d columns %v)", Msg{Kind: MsgRec, Values: rec.Values, Retr: rec.Retraction, ET: rec.EventTime}, m, len(outCols), outCols)
 					return nil
 				}
-				ws, we := rec.Values[len(m.Values)], rec.Values[len(m.Values)+1]
+				var ws, we octosql.Value
+				for i, c := range outCols {
+					switch c {
+					case "window_start":
+						ws = rec.Values[i]
+					case "window_end":
+						we = rec.Values[i]
+					default:
+						if RowKey([]octosql.Value{rec.Values[i]}) != RowKey([]octosql.Value{m.Values[colOf[c]]}) {
+							r.Violate("C21", "tumble_fields", attrs, "column %s of %s is not the input's (%s)", c, RowString(rec.Values), m)
+							return nil
+						}
+					}
+				}
 				ts := m.Values[1].Time
+				if timeField == "u" {
+					ts = m.Values[2].Time
+				}
 				if ws.TypeID != octosql.TypeIDTime || we.TypeID != octosql.TypeIDTime {
 					r.Violate("C21", "tumble_window", attrs, "window columns are not times: %s", RowString(rec.Values))
 					return nil
@@ -116,7 +156,7 @@ func tumbleScenario(r *Run) {
 				okWindow := !ws.Time.After(ts) && ts.Before(we.Time) && we.Time.Sub(ws.Time) == L &&
 					(ws.Time.Add(-off).UnixNano()%int64(L)+int64(L))%int64(L) == 0
 				if !okWindow {
-					r.Violate("C21", "tumble_window", attrs, "time %s got window [%s, %s) for length %v offset %v", msString(ts), msString(ws.Time), msString(we.Time), L, off)
+					r.Violate("C21", "tumble_window", attrs, "time %s (field %q) got window [%s, %s) for length %v offset %v", msString(ts), timeField, msString(ws.Time), msString(we.Time), L, off)
 				}
 				return nil
 			},
